@@ -40,7 +40,79 @@ impl Prop for Sources {
     }
 }
 
+/// Files whose records are separated by small filler runs (so they can only be read through the index):
+/// the fault and short-read clauses of C13 on the indexed route.
+pub struct SourcesGapped;
+impl Prop for SourcesGapped {
+    type Case = SrcCase;
+    fn name() -> &'static str {
+        "sources-gapped"
+    }
+    fn rule() -> &'static str {
+        "proptest: valid files with 2-16 byte filler runs between records, read WITH the index: clean traversal, the k-th read/seek of \
+         .shp and of .shx failing for every k, and short-read schedules {1,2,3,7, generated}; same oracle as sources. \
+         Non-trivial: every case (every record is reached by skipping a gap)"
+    }
+    fn check(c: &SrcCase, ctx: &mut Ctx) -> Result<(), Fail> {
+        ctx.nontrivial();
+        let m = &c.model;
+        let enc = refcodec::encode(m);
+        let never = || false;
+        let mut inner = 0u64;
+        let clean_shp = Src::new(enc.shp.clone());
+        let clean_shx = Src::new(enc.shx.clone());
+        traverse("clean traversal (gapped file)", clean_shp.handle(), Some(clean_shx.handle()), m, &never)?;
+        for k in 0..clean_shp.ops() {
+            inner += 1;
+            let s = Src::faulting(enc.shp.clone(), k);
+            let h = s.handle();
+            let what = format!("gapped .shp source failing its op #{}", k);
+            match guard(|| traverse(&what, s, Some(Src::new(enc.shx.clone())), m, &|| h.faulted())) {
+                Ok(r) => r?,
+                Err(p) => fail!("panic", "{}: reader panics: {}", what, p),
+            }
+        }
+        let mut schedules: Vec<Vec<usize>> = vec![vec![1], vec![2], vec![3], vec![7]];
+        schedules.push(c.chunks.clone());
+        for sch in schedules {
+            inner += 1;
+            let what = format!("gapped file, sources returning at most {:?} bytes per read", sch);
+            match guard(|| traverse(&what, Src::short(enc.shp.clone(), sch.clone()), Some(Src::short(enc.shx.clone(), sch.clone())), m, &never)) {
+                Ok(r) => r?,
+                Err(p) => fail!("panic", "{}: reader panics: {}", what, p),
+            }
+        }
+        ctx.evals(inner);
+        Ok(())
+    }
+}
+impl RandomProp for SourcesGapped {
+    fn max_shrink_iters() -> u32 {
+        150
+    }
+    fn strategy(_env: &Env) -> BoxedStrategy<SrcCase> {
+        (file_model(6, 3, 5), proptest::collection::vec(1usize..12, 1..6), proptest::collection::vec((1usize..=8, any::<u8>()), 8))
+            .prop_filter_map("at least one record", |(mut model, chunks, fl)| {
+                if model.recs.is_empty() {
+                    return None;
+                }
+                model.trailing.clear();
+                let n = model.recs.len();
+                model.order = (0..n).collect();
+                model.fillers = (0..=n).map(|k| vec![fl[k % fl.len()].1; fl[k % fl.len()].0 * 2]).collect();
+                Some(SrcCase { model, chunks })
+            })
+            .boxed()
+    }
+    fn cases(env: &Env) -> u64 {
+        env.n(13 * 30, 13 * 1500)
+    }
+}
+
 impl RandomProp for Sources {
+    fn max_shrink_iters() -> u32 {
+        150
+    }
     fn strategy(_env: &Env) -> BoxedStrategy<SrcCase> {
         let model = prop_oneof![
             11 => file_model(6, 4, 6),
